@@ -9,6 +9,7 @@ import (
 	"flag"
 	"fmt"
 	"os"
+	"runtime/debug"
 	"sort"
 	"strings"
 
@@ -299,8 +300,30 @@ func main() {
 	of := flag.Int("of", 1, "")
 	dump := flag.Bool("dump", false, "")
 	tun := flag.Int("tunables", 0, "history depth of the built-in-table mode (0 = off)")
+	probe := flag.Bool("probe-cycle", false, "resolve a two-variable cycle with a small stack limit and say what happened")
+	cycles := flag.Bool("cycles", false, "extend the alphabet by a two-variable cycle (only when the probe says Resolve survives it)")
 	flag.Parse()
 	w := json.NewEncoder(os.Stdout)
+	if *probe {
+		// an unbounded mutual expansion must end in an error; a Go stack overflow is fatal (not recoverable), so this
+		// runs in its own process with a small stack limit and the parent reads the exit status
+		debug.SetMaxStack(2 << 20)
+		f := aa.NewAppArmorProfile()
+		_, perr := f.Parse("@{p} = @{q}/1\n@{q} = @{p}/2\n@{exec_path} = /bin/e\nprofile p @{exec_path} {\n}\n")
+		if perr != nil {
+			fmt.Println("parse-error: " + perr.Error())
+			return
+		}
+		if rerr := f.Resolve(); rerr != nil {
+			fmt.Println("error: " + rerr.Error())
+		} else {
+			fmt.Println("no-error")
+		}
+		return
+	}
+	if *cycles {
+		alphabet = append(alphabet, "@{p} = @{q}/1", "@{q} = @{p}/2")
+	}
 	if *tun > 0 {
 		tunablesMode(*tun, w)
 		return
